@@ -1,6 +1,6 @@
 ------------------------------ MODULE Track_MC ------------------------------
 EXTENDS Track
-CharsAll   == {"a", "sp", "hash", "bang", "quote", "star", "qmark", "lbr", "rbr", "bslash", "tab", "nonascii", "dot"}
+CharsAll   == {"a", "sp", "hash", "bang", "quote", "star", "qmark", "lbr", "rbr", "bslash", "tab", "nonascii", "dot", "uspace"}
 PatsQuick  == { <<"star", "dot", "a">>, <<"a", "qmark">>, <<"a", "sp", "star">>, <<"hash", "star">> }
 PreAll     == {"absent", "commented", "crlf", "noeol", "oneline", "oneline-plain"}
 =============================================================================
